@@ -24,13 +24,26 @@ ROLE_SERVICES = {'idpsso': ['artifact_resolution_service', 'single_logout_servic
                  'spsso': ['artifact_resolution_service', 'single_logout_service', 'manage_name_id_service', 'assertion_consumer_service'],
                  'attribute_authority': ['attribute_service'], 'authn_authority': ['authn_query_service'], 'pdp': ['authz_service']}
 RS = 'http://refeds.org/category/research-and-scholarship'
+COCO = 'http://www.geant.net/uri/dataprotection-code-of-conduct/v1'
 OID = {'givenName': 'urn:oid:2.5.4.42', 'title': 'urn:oid:2.5.4.12', 'mail': 'urn:oid:0.9.2342.19200300.100.1.3'}
 
 
+def is_past(kind):
+    return str(kind).startswith('past')
+
+
 def vu(kind):
+    """validUntil one hour before / after now; an optional suffix selects the spelling: '.7' seven fraction digits,
+    '+01:00' / '-11:00' the same instant written in another zone."""
     if kind is None:
         return None
-    return forge.ts(env.BASE + (-3600 if kind == 'past' else 3600))
+    t = env.BASE + (-3600 if is_past(kind) else 3600)
+    sfx = kind[4:] if is_past(kind) else kind[6:]
+    if sfx == '.7':
+        return forge.ts(t, 'none') + '.1444737Z'
+    if sfx:
+        return forge.ts(t, sfx)
+    return forge.ts(t)
 
 
 def role_xml(role, r):
@@ -52,10 +65,13 @@ def role_xml(role, r):
 def entity_xml(e, standalone=True):
     ext = ''
     if e.get('categories'):
-        vals = ''.join('<saml:AttributeValue>%s</saml:AttributeValue>' % c for c in e['categories'])
-        ext = ('<md:Extensions><mdattr:EntityAttributes xmlns:mdattr="urn:oasis:names:tc:SAML:metadata:attribute">'
-               '<saml:Attribute xmlns:saml="urn:oasis:names:tc:SAML:2.0:assertion" Name="http://macedir.org/entity-category" '
-               'NameFormat="urn:oasis:names:tc:SAML:2.0:attrname-format:uri">%s</saml:Attribute></mdattr:EntityAttributes></md:Extensions>' % vals)
+        ext = '<md:Extensions>'
+        for group in e.get('category_elements') or [e['categories']]:
+            vals = ''.join('<saml:AttributeValue>%s</saml:AttributeValue>' % c for c in group)
+            ext += ('<mdattr:EntityAttributes xmlns:mdattr="urn:oasis:names:tc:SAML:metadata:attribute">'
+                    '<saml:Attribute xmlns:saml="urn:oasis:names:tc:SAML:2.0:assertion" Name="http://macedir.org/entity-category" '
+                    'NameFormat="urn:oasis:names:tc:SAML:2.0:attrname-format:uri">%s</saml:Attribute></mdattr:EntityAttributes>' % vals)
+        ext += '</md:Extensions>'
     v = vu(e.get('valid_until'))
     order = ['idpsso', 'spsso', 'authn_authority', 'attribute_authority', 'pdp']
     roles = ''.join(role_xml(r, e['roles'][r]) for r in order if r in e['roles'])
@@ -80,6 +96,12 @@ def E(name, variant=0):
         return {'id': 'urn:vp:idpA', 'roles': {'idpsso': {'keys': [('idpA' if not variant else 'idpA2', 'signing'), ('idpAenc', 'encryption')],
                 'endpoints': {'single_sign_on_service': [(REDIR, 'https://idpa.example/sso' + sfx), (POST, 'https://idpa.example/sso/post' + sfx)],
                               'single_logout_service': [(SOAP, 'https://idpa.example/slo' + sfx)]}}}}
+    if name == 'spX2':
+        # entity categories spread over two EntityAttributes elements with the same attribute Name
+        d = E('spX')
+        d['categories'] = [RS, COCO]
+        d['category_elements'] = [[RS], [COCO]]
+        return d
     if name == 'spX':
         return {'id': 'urn:vp:spX', 'categories': [RS], 'roles': {'spsso': {'keys': [('spX', 'signing'), ('spXenc1', 'encryption')],
                 'endpoints': {'assertion_consumer_service': [(POST, 'https://spx.example/acs/post', 0), (REDIR, 'https://spx.example/acs/redirect', 1)],
@@ -88,11 +110,11 @@ def E(name, variant=0):
     if name == 'aa':
         return {'id': 'urn:vp:aa', 'roles': {'attribute_authority': {'keys': [('idpB', None)],
                 'endpoints': {'attribute_service': [(SOAP, 'https://aa.example/attr')]}}}}
-    if name == 'expired':
-        return {'id': 'urn:vp:expired', 'valid_until': 'past', 'roles': {'idpsso': {'keys': [('idpB', 'signing')],
+    if name.startswith('expired'):
+        return {'id': 'urn:vp:expired', 'valid_until': 'past' + name[7:], 'roles': {'idpsso': {'keys': [('idpB', 'signing')],
                 'endpoints': {'single_sign_on_service': [(REDIR, 'https://old.example/sso')]}}}}
-    if name == 'fresh':
-        return {'id': 'urn:vp:fresh', 'valid_until': 'future', 'roles': {'idpsso': {'keys': [('idpB', 'signing')],
+    if name.startswith('fresh'):
+        return {'id': 'urn:vp:fresh', 'valid_until': 'future' + name[5:], 'roles': {'idpsso': {'keys': [('idpB', 'signing')],
                 'endpoints': {'single_sign_on_service': [(REDIR, 'https://fresh.example/sso')]}}}}
     if name == 'saml1':
         return {'id': 'urn:vp:saml1', 'roles': {'idpsso': {'proto': 'saml1', 'keys': [('idpB', 'signing')],
@@ -122,6 +144,16 @@ def federations(thorough):
         F.append(('single:' + n, [{'kind': 'single', 'entities': [E(n)]}]))
         for v in (None, 'past', 'future'):
             F.append(('wrapped:%s:%s' % (n, v), [{'kind': 'multi', 'valid_until': v, 'entities': [E(n)]}]))
+    # other spellings of validUntil (seven fraction digits, other zones), and categories over two elements
+    # (numeric zones are not generated: SAML core 1.3.3 requires the UTC form, such metadata is not valid metadata)
+    for sp_ in ('.7',):
+        F.append(('single:expired' + sp_, [{'kind': 'single', 'entities': [E('expired' + sp_)]}]))
+        F.append(('single:fresh' + sp_, [{'kind': 'single', 'entities': [E('fresh' + sp_)]}]))
+        F.append(('multi:expired%s+fresh%s+idpA' % (sp_, sp_), [{'kind': 'multi', 'entities': [E('expired' + sp_), E('fresh' + sp_), E('idpA')]}]))
+        for v in ('past' + sp_, 'future' + sp_):
+            F.append(('wrapped:idpA+spX:%s' % v, [{'kind': 'multi', 'valid_until': v, 'entities': [E('idpA'), E('spX')]}]))
+    F.append(('single:spX2', [{'kind': 'single', 'entities': [E('spX2')]}]))
+    F.append(('multi:spX2+idpA', [{'kind': 'multi', 'entities': [E('spX2'), E('idpA')]}]))
     # pairs and triples in one document
     for k in (2, 3):
         for combo in itertools.combinations(names, k):
@@ -157,11 +189,11 @@ def served_candidates(docs, eid):
     """Specifications of `eid` that a conforming store may serve (one per source, unmixed)."""
     out = []
     for d in docs:
-        if d['kind'] == 'multi' and d.get('valid_until') == 'past':
+        if d['kind'] == 'multi' and is_past(d.get('valid_until')):
             continue
         seen_in_doc = False
         for e in d['entities']:
-            if e['id'] != eid or e.get('valid_until') == 'past':
+            if e['id'] != eid or is_past(e.get('valid_until')):
                 continue
             roles = {r: s for r, s in e['roles'].items() if s.get('proto', 'saml2') in ('saml2', 'both')}
             if not roles:
@@ -210,7 +242,7 @@ def build_store(docs):
                 mds.load('local', p)
         except Exception as e:
             err = type(e).__name__
-            if not (d['kind'] == 'multi' and d.get('valid_until') == 'past'):
+            if not (d['kind'] == 'multi' and is_past(d.get('valid_until'))):
                 raise
     return mds, err
 
@@ -434,7 +466,23 @@ def evaluate_roundtrip(which):
     from saml2_tophat.attribute_converter import ac_factory
     from saml2_tophat.config import Config
     env.Clock.set(env.BASE)
-    if which.startswith('sp'):
+    want_idx = None
+    if which.startswith('sp-indexed'):
+        # endpoints configured with explicit integer indexes: 3-tuples, dicts, and an order where index 0 is not first
+        from vp.world import ACS_POST, ACS_REDIRECT, ACS_SOAP, BINDING_HTTP_POST as P_, BINDING_HTTP_REDIRECT as R_, BINDING_SOAP as S_
+        shape = which.split(':')[1]
+        acs = {'tuples': [(ACS_POST, P_, 0), (ACS_REDIRECT, R_, 1), (ACS_SOAP, S_, 2)],
+               'zero-last': [(ACS_POST, P_, 2), (ACS_REDIRECT, R_, 1), (ACS_SOAP, S_, 0)],
+               'strings': [(ACS_POST, P_, '0'), (ACS_REDIRECT, R_, '1'), (ACS_SOAP, S_, '2')],
+               'gaps': [(ACS_POST, P_, 0), (ACS_REDIRECT, R_, 5), (ACS_SOAP, S_, 7)]}[shape]
+        want_idx = sorted((b, l, str(i)) for l, b, i in acs)
+        enc = ()
+        ent = world.make_sp(TMP[0], enc=enc, acs=acs)
+        conf = ent.config
+        role = 'spsso'
+        eps = {'assertion_consumer_service': [(l, b) for l, b, _i in acs]}
+        sign = 'spX'
+    elif which.startswith('sp'):
         enc = ('spXenc1',) if 'enc' in which else ()
         ent = world.make_sp(TMP[0], enc=enc)
         conf = ent.config
@@ -462,6 +510,8 @@ def evaluate_roundtrip(which):
         want = sorted((b, l) for l, b in lst)
         if sorted((b, l) for b, l, _i in got) != want:
             bad.append(('endpoints-not-round-tripped', svc, got))
+        elif want_idx is not None and sorted(got) != want_idx:
+            bad.append(('endpoint-indexes-not-round-tripped', svc, got))
     certs = [''.join(x.split()) for x in mds.certs(eid, role, 'signing')]
     if world.cert_b64(sign) not in certs:
         bad.append(('signing-cert-not-round-tripped', None, len(certs)))
@@ -492,7 +542,7 @@ def run(ctx):
         if bad:
             ctx.violation({'kind': bad.split(':')[0], 'signature_state': case[0], 'loader_cert': case[1], 'shape': case[2]},
                           {'served': served, 'load_returned': r, 'raised': raised})
-    for which in ('sp', 'sp-enc', 'idp'):
+    for which in ('sp', 'sp-enc', 'idp', 'sp-indexed:tuples', 'sp-indexed:zero-last', 'sp-indexed:strings', 'sp-indexed:gaps'):
         w, bad = evaluate_roundtrip(which)
         n += 1
         nontriv.add(('roundtrip', which))
@@ -503,7 +553,7 @@ def run(ctx):
         'coverage': {
             'evaluations': n, 'distinct_nontrivial': len(nontriv), 'exhaustive': True, 'federations': len(feds),
             'queries_per_federation': len(ALL_IDS) * (len(QUERIES) * len(BINDINGS) + 10 + 2) + 2,
-            'rule': 'federation document sets: every entity of a 7-entity alphabet (IdP with signing+encryption keys, SP with ACS indexes/requested attributes/entity category, AA with use-less key, entity with validUntil past / future, SAML1-only entity, dual-role entity with different keys per role and a PDP role) alone, wrapped in an EntitiesDescriptor with validUntil absent/past/future, all pairs%s in one document, ordered pairs over two sources, duplicates with different content in both orders and inside one document, an expired document followed by a good one%s; every query tuple (8 entity ids incl. unknown) x 7 (role, service) x 5 bindings, certs(descriptor x use), entity categories, attribute requirements, provider listing; 30 signed-metadata cases (signature state x loader certificate x EntityDescriptor/EntitiesDescriptor); configuration -> generated metadata -> store round trip for SP (with/without encryption key) and IdP' % (' and triples' if ctx.thorough else ' (triples containing the dual-role entity)', ', ordered triples over three sources' if ctx.thorough else ''),
+            'rule': 'federation document sets: every entity of a 7-entity alphabet (IdP with signing+encryption keys, SP with ACS indexes/requested attributes/entity category, AA with use-less key, entity with validUntil past / future, SAML1-only entity, dual-role entity with different keys per role and a PDP role) alone, wrapped in an EntitiesDescriptor with validUntil absent/past/future, all pairs%s in one document, ordered pairs over two sources, duplicates with different content in both orders and inside one document, an expired document followed by a good one%s; validUntil with seven fraction digits on entities and aggregates; entity categories spread over two EntityAttributes elements; every query tuple (8 entity ids incl. unknown) x 7 (role, service) x 5 bindings, certs(descriptor x use), entity categories, attribute requirements, provider listing; 30 signed-metadata cases (signature state x loader certificate x EntityDescriptor/EntitiesDescriptor); configuration -> generated metadata -> store round trip for SP (with/without encryption key; explicit integer / string endpoint indexes incl. 0, in several orders) and IdP' % (' and triples' if ctx.thorough else ' (triples containing the dual-role entity)', ', ordered triples over three sources' if ctx.thorough else ''),
             'samples': [{'federation': feds[len(feds) // 2][0]}],
         },
         'assumptions': ['table cells / federations are evaluated in a process time zone (UTC, UTC+5, UTC-5) chosen as a function of their coordinates: verdicts must not depend on it', 'reference answers are computed from the generating specification (the declared content)', 'duplicate entityIDs: any one declared version, unmixed, is accepted',
